@@ -156,10 +156,30 @@ struct AMod {
     progs: Vec<Vec<Value>>,
     local: bool,
     inc: u32,
-    tx0: Option<UnboundedSender<()>>,
+    tx0: std::rc::Rc<RefCell<Option<UnboundedSender<()>>>>,
+    pe_forward: bool,
+}
+
+/// consumes every message of the module and forwards it into channel 0 (the module's handler never runs)
+struct Forwarder {
+    tx0: std::rc::Rc<RefCell<Option<UnboundedSender<()>>>>,
+}
+impl des::net::processing::ProcessingElement for Forwarder {
+    fn incoming(&mut self, _msg: Message) -> Option<Message> {
+        if let Some(tx) = self.tx0.borrow().as_ref() {
+            let _ = tx.send(());
+        }
+        None
+    }
 }
 
 impl Module for AMod {
+    fn stack(&self, mut stack: des::net::processing::ProcessingStack) -> des::net::processing::ProcessingStack {
+        if self.pe_forward {
+            stack.append(Forwarder { tx0: self.tx0.clone() });
+        }
+        stack
+    }
     fn at_sim_start(&mut self, _stage: usize) {
         let n = self.progs.len();
         let nch = n + 2;
@@ -170,7 +190,7 @@ impl Module for AMod {
             txs.push(tx);
             rxs.push(Some(rx));
         }
-        self.tx0 = Some(txs[0].clone());
+        *self.tx0.borrow_mut() = Some(txs[0].clone());
         for t in 0..n {
             // the channel this task receives from (at most one: programs are race free)
             let mine = self.progs[t].iter().find_map(|s| match s["k"].as_str().unwrap() {
@@ -185,13 +205,13 @@ impl Module for AMod {
         }
     }
     fn handle_message(&mut self, _msg: Message) {
-        if let Some(tx) = &self.tx0 {
+        if let Some(tx) = self.tx0.borrow().as_ref() {
             let _ = tx.send(());
         }
     }
     fn reset(&mut self) {
         self.inc += 1;
-        self.tx0 = None;
+        *self.tx0.borrow_mut() = None;
     }
 }
 
@@ -203,14 +223,14 @@ pub struct AOutcome {
     pub panicked: bool,
 }
 
-pub fn run_programs(progs: &[Vec<Value>], local: bool, tick_ns: u64, max_t: u64) -> AOutcome {
+pub fn run_programs(progs: &[Vec<Value>], local: bool, tick_ns: u64, max_t: u64, pe_forward: bool) -> AOutcome {
     silence_panics();
     OBS.with(|o| *o.borrow_mut() = vec![Vec::new(); progs.len()]);
     TASK_STATE_LIVE.with(|l| *l.borrow_mut() = 0);
     TICK.with(|t| *t.borrow_mut() = Duration::from_nanos(tick_ns));
     let r = catch_unwind(AssertUnwindSafe(|| {
         let mut sim = Sim::new(());
-        sim.node("m", AMod { progs: progs.to_vec(), local, inc: 1, tx0: None });
+        sim.node("m", AMod { progs: progs.to_vec(), local, inc: 1, tx0: std::rc::Rc::new(RefCell::new(None)), pe_forward });
         let rt = Builder::seeded(5).quiet().max_time(SimTime::from_duration(Duration::from_nanos(tick_ns) * max_t as u32 + Duration::from_nanos(tick_ns / 2))).build(sim.freeze());
         rt.run()
     }));
@@ -239,6 +259,8 @@ pub fn replay(args: &[String]) {
     let path = &args[0];
     let max_t = arg_u64(args, "--max-t", 12);
     let local_mode = arg_value(args, "--spawn").unwrap_or_else(|| "both".into());
+    let tick_ns = arg_u64(args, "--tick-ns", 1_000_000_000);
+    let pe_forward = arg_u64(args, "--pe-forward", 0) == 1;
     let mut s = Summary::default();
     for_each_line(path, |li, v| {
         s.behaviours += 1;
@@ -261,9 +283,9 @@ pub fn replay(args: &[String]) {
         for local in kinds {
             s.replays += 1;
             watchdog::enter(|| json!({"prog": v["prog"], "spawn_local": local}).to_string());
-            let out = run_programs(&progs, local, 1_000_000_000, max_t);
+            let out = run_programs(&progs, local, tick_ns, max_t, pe_forward);
             let mut fail = |field: String, extra: Value| {
-                let mut m = json!({"field": field, "behaviour": v, "spawn_local": local, "max_t": max_t, "tasks": progs.len()});
+                let mut m = json!({"field": field, "behaviour": v, "spawn_local": local, "max_t": max_t, "tasks": progs.len(), "tick_ns": tick_ns, "pe_forward": pe_forward});
                 if let Some(o) = extra.as_object() {
                     for (k, x) in o {
                         m[k] = x.clone();
